@@ -637,8 +637,12 @@ def _dist_point_bezier_f(fc, p, tol):
         if low >= best:
             continue
         d = _dist_point_seg_f(c[0], c[-1], p)
-        size = max(x1 - x0, y1 - y0)
-        if len(c) == 2 or size < tol * 0.25:
+        # flatness: distance of the inner control points from the chord bounds the
+        # deviation of the piece from its chord
+        flat = 0.0
+        for q in c[1:-1]:
+            flat = max(flat, _dist_point_seg_f(c[0], c[-1], q))
+        if len(c) == 2 or flat < tol:
             best = min(best, d)
             continue
         best = min(best, math.hypot(c[0][0] - p[0], c[0][1] - p[1]),
